@@ -575,7 +575,8 @@ def check_swap_consistency(new_out_ops2, new_out_ops3, out_ops3_expanded):
         assert sorted(row2) == row2
         for op1, op2 in zip(sorted(row1), sorted(row2)):
             assert  op1[:-1] == op2[:-1]
-            np.testing.assert_allclose(op1[-1], op2[-1], rtol=1e-8, atol=1e-11)
+            # rounding errors are relative to the largest contribution, as in the pruning above
+            np.testing.assert_allclose(op1[-1], op2[-1], rtol=1e-8, atol=max(1e-11, abs(max_v) * 1e-10))
 
 
 def _grouped_to_list(grouped: Dict[Tuple, float], max_v: float) -> List[Tuple]:
